@@ -112,6 +112,56 @@ PROPS = {
             'lens': [(['r', 'o'], S('call'))]},
 }
 
+
+# ---------------------------------------------------------------- trace validation (code -> spec) per property
+# Each entry: recorded random executions of the real code (harness/gen.py) validated by TLC against spec/Trace.tla.
+# profile: 's' | 'c' | 'pair'; flavour: what the inputs concentrate on; n = traces (quick, thorough); length (quick, thorough)
+def tvp(profile, flavour, n=(12, 300), length=(60, 120), **kw):
+    d = {'profile': profile, 'flavour': flavour, 'n': {'quick': n[0], 'thorough': n[1]},
+         'length': {'quick': length[0], 'thorough': length[1]}}
+    d.update(kw)
+    return d
+
+
+def tvs(profiles, flavours, **kw):
+    return [tvp(p, f, **kw) for p in profiles.split() for f in flavours.split()]
+
+
+TV = {
+    'C01': tvs('pair', 'mix life flow push', n=(16, 400)),
+    'C02': tvs('s c', 'mix headers misc') + tvs('pair', 'mix'),
+    'C03': tvs('s c pair', 'flow', n=(20, 600)),
+    'C04': tvs('s c pair', 'flow', n=(20, 600)),
+    'C05': tvs('s c', 'flow', n=(30, 900)),
+    'C06': tvs('s c pair', 'life', n=(20, 500), max_closed=[None, 3]),
+    'C07': tvs('s c', 'life headers', chaos=0.15),
+    'C08': tvs('s c', 'life misc', chaos=0.3),
+    'C09': tvs('s c', 'life push', chaos=0.15),
+    'C10': tvs('s c', 'life push settings') + tvs('pair', 'push'),
+    'C11': tvs('s c pair', 'settings', n=(20, 600)),
+    'C12': tvs('s c', 'settings', n=(20, 600), chaos=0.3),
+    'C13': tvs('pair', 'headers mix', n=(24, 600), chaos=0.2),
+    'C14': tvs('s c', 'headers', n=(24, 600), chaos=0.2),
+    'C15': tvs('s c', 'headers', n=(24, 600), chaos=0.2),
+    'C16': tvs('s c', 'mix flow headers'),
+    'C17': tvs('s c', 'mix close headers', chaos=0.35),
+    'C18': tvs('s c', 'mix close settings', chaos=0.35),
+    'C19': tvs('s c pair', 'close', n=(20, 500), chaos=0.2),
+    'C20': tvs('s c pair', 'life push', max_closed=[None, 2]),
+    'C21': tvs('s c', 'mix life', chunked=True) + tvs('pair', 'mix', chunked=True),
+    'C22': tvs('s c pair', 'push', n=(20, 600)),
+    'C23': tvs('s c pair', 'misc'),
+    'C24': tvs('s c pair', 'misc'),
+    'C26': tvs('s c pair', 'misc'),
+    'C27': tvs('s c', 'life push', max_closed=[2, 4], chaos=0.15),
+    'C28': tvs('s c pair', 'mix', hashseeds=True),
+    'C29': tvs('s c', 'mix life misc', chaos=0.4),
+}
+
+# formulas of spec/Scn.tla that belong to each property (a PROPFAIL of one of them on a recorded trace is a violation of it)
+FORMULAS = {pid: sorted({i for sc_ in PROPS[pid]['scenarios'] for i in sc_.get('invariants', [])}) for pid in PROPS}
+FORMULAS['C10'] = FORMULAS['C10'] + ['P_C10_InboundWithinLocalLimit']
+
 NOT_APPLICABLE = {
     'C25': 'the h2c upgrade path (initiate_upgrade_connection, HTTP2-Settings) is not modelled in spec/H2.tla yet; the '
            'harness driver has the call but no scenario model predicts it, so nothing is claimed',
@@ -123,15 +173,20 @@ NOT_APPLICABLE = {
 STATE_ONLY = {'misuse_closes_stream', 'misuse_closes_connection', 'failed_send_partial_state', 'update_settings_partial'}
 
 
-def tainted(d):
-    """Is this divergence on a step whose prediction is the recorded behaviour of a known finding?"""
-    if d.get('dev_before'):
+def tainted(d, alive=None):
+    """Is this divergence on a step whose prediction is the recorded behaviour of a known finding that the current tree no
+    longer shows?  `alive` is the set of deviation branches whose recorded finding still reproduces exactly on the current
+    tree: on such branches the as-built model is still the right prediction, so steps on and after them are judged like any
+    other.  (alive=None: no deviation is taken to be alive.)"""
+    alive = alive or set()
+    before = set(d.get('dev_before') or [])
+    new = set(d.get('dev', [])) - before
+    if before - alive:
         return True
-    new = set(d.get('dev', []))
-    if not new:
+    if not new - alive:
         return False
     public = [f for f in d.get('fields', []) if not f.startswith('z.')]
-    return not (new <= STATE_ONLY and public)
+    return not (new - alive <= STATE_ONLY and public)
 
 
 def tags(d):
@@ -151,6 +206,8 @@ def tags(d):
         t.add('dlv')
         for ty in d.get('frame_types', []):
             t.add('frame:' + ty)
+    for ty in d.get('pend_types', []):        # frames left in the input buffer by an earlier call are handled by this one
+        t.add('frame:' + ty)
     return t
 
 
